@@ -874,8 +874,11 @@ class AggTable:
     _symarray = True
     __hash__ = None
 
+    overrides = ()
+
     def __init__(self, gid, a, func, fill):
         self.gid, self.a, self.func, self.fill = gid, a, func, fill
+        self.overrides = []
         for g in gid.e:
             if is_sym(g):
                 R.CTX.err(R.num(g)[0] < 0, "ValueError(negative group_idx)")
@@ -888,7 +891,27 @@ class AggTable:
     def astype(self, t):
         return self
 
+    @property
+    def dtype(self):
+        if self.func in ("any", "all"):
+            return numpy.dtype(bool)
+        return self.a.dtype if isinstance(self.a, SymArray) else numpy.asarray(self.a).dtype
+
+    def __setitem__(self, key, value):
+        # table[mask_table] = value  (both indexed by group id): recorded, applied at lookup
+        if isinstance(key, AggTable) and key.func in ("any", "all"):
+            self.overrides = list(self.overrides) + [(key, value)]
+            return
+        raise Unsupported("assignment into an aggregate table")
+
     def __getitem__(self, idx):
+        base = self._lookup(idx)
+        for mask, value in self.overrides:
+            m = mask._lookup(idx)
+            base = SymArray([merge(truth(mm), value, b) for mm, b in zip(m.e, base.e)], base.dtype if base.dtype is not None else None)
+        return base
+
+    def _lookup(self, idx):
         if isinstance(idx, numpy.ndarray):
             idx = SymArray([int(x) for x in idx], int)
         if not isinstance(idx, SymArray):
@@ -1302,14 +1325,59 @@ class SymSeries:
         raise Unsupported(f"pandas.Series attribute .{name} is not modelled")
 
 
+class _PerGroup(SymSeries):
+    """result of a groupby reduction (one entry per group), represented with one entry per ROW of the group:
+    sound for comparisons and any/all/max/min, not for sums or lengths"""
+
+    def sum(self):
+        raise Unsupported("sum over a per-group result")
+
+    mean = sum
+
+    def __len__(self):
+        raise Unsupported("length of a per-group result")
+
+    _symlen = __len__
+
+
 class _GroupBy:
     def __init__(self, s, by):
         self.s, self.by = s, by
 
+    def __getattr__(self, name):
+        if name.startswith("_"):
+            raise AttributeError(name)
+        raise Unsupported(f"pandas groupby attribute .{name} is not modelled")
+
+    def _gid(self):
+        by = self.by
+        return by.a if isinstance(by, SymSeries) else (by if isinstance(by, SymArray) else SymArray(list(by)))
+
+    def nunique(self, dropna=True):
+        gid, es = self._gid(), self.s.a.e
+        out = []
+        for i in range(len(es)):
+            cnt = z3.IntVal(0)
+            for j in range(len(es)):
+                same_group = truth(R.compare(ast.Eq(), gid.e[j], gid.e[i]))
+                first = z3.And([z3.Not(z3.And(truth(R.compare(ast.Eq(), gid.e[k], gid.e[i])), truth(R.compare(ast.Eq(), es[k], es[j])))) for k in range(j)]) if j else z3.BoolVal(True)
+                cnt = cnt + z3.If(z3.And(same_group, first), 1, 0)
+            out.append(Sym(cnt, int))
+        return _PerGroup(SymArray(out, int))
+
+    def _reduce(self, how):
+        return _PerGroup(self.transform(how).a)
+
+    def max(self):
+        return self._reduce("max")
+
+    def min(self):
+        return self._reduce("min")
+
     def transform(self, how):
         if how not in ("max", "min", "sum"):
             raise Unsupported(f"groupby.transform({how})")
-        gid = self.by.a if isinstance(self.by, SymSeries) else self.by
+        gid = self._gid()
         tab = AggTable.__new__(AggTable)
         tab.gid, tab.a, tab.func, tab.fill = gid, self.s.a, how, 0
         out = []
@@ -1317,6 +1385,26 @@ class _GroupBy:
             members = [truth(R.compare(ast.Eq(), g, i)) for g in gid.e]
             out.append(tab._agg(members, list(self.s.a.e)))
         return SymSeries(SymArray(out))
+
+
+def _i_pd_series(args, kw):
+    import pandas
+    data = args[0] if args else kw.get("data")
+    if isinstance(data, SymSeries):
+        return SymSeries(data.a, kw.get("name", data.name))
+    if isinstance(data, SymArray):
+        return SymSeries(data, kw.get("name"))
+    if isinstance(data, (list, tuple)) and any(is_sym(x) for x in data):
+        return SymSeries(SymArray(list(data)), kw.get("name"))
+    return R._native(pandas.Series, args, kw)
+
+
+def _reg_pandas():
+    import pandas
+    R.INTRINSICS[pandas.Series] = _i_pd_series
+
+
+_reg_pandas()
 
 
 def _i_set(args, kw):
